@@ -132,5 +132,14 @@ Definition beyond_ok (c : case) (r : result) : bool :=
 Definition prop_verdict (c : case) (observed : result) : bool :=
   if lens_okb c then prop_case c observed else beyond_ok c observed.
 
+(* Decimal formatting of a long vector: the code (and so the model) divides the whole vector by ten once per
+   digit with a bit-serial division - cubic in the length, tens of seconds per case beyond a few hundred bits.
+   There the model is not evaluated; nothing is lost, because the result holds no vector and the specification
+   is exact: the property verdict alone says that the crate printed exactly the decimal digits of the value. *)
+Definition cap0 (c : case) : N := match c_vals c with x :: _ => x_capacity x | [] => 0 end.
+Definition costly (c : case) : bool := (c_op c =? 31) && (arg c 0 =? 0) && ((300 <? len0 c) || (1100 <? cap0 c)).
+
+Definition model_consulted (c : case) : bool := lens_okb c && negb (costly c).
+
 Definition corr_verdict (c : case) (observed : result) : bool :=
-  if lens_okb c then result_eqb (run_case c) observed else true.
+  if model_consulted c then result_eqb (run_case c) observed else true.
